@@ -49,7 +49,7 @@ func (check) Cases(tier string) int {
 }
 
 func (check) Rule() string {
-	return "one sequence per case: 65% key=value flag (1-10 arguments over the keys a,b,c,l,a.b,a.c,l.0,l.1,l.0.k,c.0.b, a previous key reused w.p. 1/2; values in every parse.Value syntax: uint/int/float/hex, bool words, null, bare words, single and double quoted, comma lists, [..] lists, {..} objects, nested, padded, trailing commas; empty value; bare key; malformed arguments (table + truncations of valid values) at a random position and w.p. 1/4 after it; autoBool off in 15% so that a bare key is the flag's own malformed form; 15% driven through a real flag.FlagSet/ConfigVar), 20% file flag (1-5 temp files .yaml/.yml/.json/.hjson holding JSON renderings of correlated dict trees, a missing file / unknown extension / truncated document / scalar document as the failing argument), 15% cfgutil.Collector directly (Add(cfg,nil)/Add(nil,nil)/Add(nil,err) histories, GetOptions). Option sets: PathSep(\".\") +- one of {ReplaceValues, ReplaceArrValues, AppendValues, PrependValues} +- VarExp (6% of key=value cases, references only to keys of the initial config); initial config nil or a small dictionary. After EVERY Set/Add the config is read back and compared. Non-trivial = at least two accepted settings before the first failure whose keys are equal or one a path prefix of the other (files/collector: share a top-level key or both carry a list); distinct = distinct (mode, option set, autoBool, initial config, argument texts)."
+	return "one sequence per case: 65% key=value flag (1-10 arguments over the keys a,b,c,l,a.b,a.c,l.0,l.1,l.0.k,c.0.b, a previous key reused w.p. 1/2; values in every parse.Value syntax: uint/int/float/hex, bool words, null, bare words, single and double quoted, comma lists, [..] lists, {..} objects, nested, padded, trailing commas; empty value; bare key; malformed arguments (table + truncations of valid values) at a random position and w.p. 1/4 after it; autoBool off in 15% so that a bare key is the flag's own malformed form; 15% driven through a real flag.FlagSet/ConfigVar), 20% file flag (1-5 temp files .yaml/.yml/.json/.hjson holding JSON renderings of correlated dict trees, 1 in 4 sequences spell members of top-level dictionaries as dotted keys; a missing file / unknown extension / truncated document / scalar document as the failing argument), 15% cfgutil.Collector directly (Add(cfg,nil)/Add(nil,nil)/Add(nil,err) histories, GetOptions). Option sets: PathSep(\".\") +- one of {ReplaceValues, ReplaceArrValues, AppendValues, PrependValues} +- VarExp (6% of key=value cases, never with ReplaceValues; primitive-valued references to keys of the initial config only; half of them with a Resolve option that alone knows ${ext}); initial config nil or a small dictionary. After EVERY Set/Add the config is read back and compared. Non-trivial = at least two accepted settings before the first failure whose keys are equal or one a path prefix of the other (files/collector: share a top-level key or both carry a list); distinct = distinct (mode, option set, autoBool, initial config, argument texts)."
 }
 
 func (check) Assumptions() []string {
@@ -665,6 +665,13 @@ type monitor struct {
 	mattered  bool
 }
 
+// prime records the config as it reads before the first Set/Add.
+func (mo *monitor) prime(cfg *ucfg.Config) {
+	if got, err := obs.Top(cfg, mo.st.os.read()...); err == nil {
+		mo.prevGot, mo.havePrev = got, true
+	}
+}
+
 // step is called after every Set/Add. kind is what the reference made of the
 // argument ("ignored","bare","value","fail:*","post-failure").
 func (mo *monitor) step(i int, arg, kind string, ret error, retIdentity bool, cfg *ucfg.Config, recorded error) {
@@ -919,6 +926,7 @@ func runKV(res *harness.R, r *rand.Rand, idx int, verbose bool) {
 	}
 	res.SetAdd("mode", mode)
 	mo := &monitor{res: res, st: st, desc: desc}
+	mo.prime(cfgPtr)
 	var effective []string
 	for i, a := range args {
 		var ret error
@@ -1039,7 +1047,6 @@ func kvReference(res *harness.R, st *refState, i int, a kvArg, autoBool bool, ef
 			st.broken = true
 			return
 		}
-		_ = kind
 		var tree *model.Node
 		if st.m != nil && plainValue(val) {
 			tree = expand(key, model.FromIfc(val))
@@ -1237,6 +1244,7 @@ func runFiles(res *harness.R, r *rand.Rand, idx int, verbose bool) {
 	cfgPtr := fv.Config()
 	res.SetAdd("mode", mode)
 	mo := &monitor{res: res, st: st, desc: desc}
+	mo.prime(cfgPtr)
 	var effective []string
 	for i, f := range files {
 		path := filepath.Join(dir, f.name)
@@ -1421,6 +1429,7 @@ func runCollector(res *harness.R, r *rand.Rand, idx int, verbose bool) {
 		return
 	}
 	mo := &monitor{res: res, st: st, desc: desc}
+	mo.prime(cfgPtr)
 	var effective []string
 	for i, op := range ops {
 		var c0, c1, c2 *ucfg.Config
